@@ -36,7 +36,7 @@ theorem C01_toDense_partial (A : Op R) (hwf : A.wf = true) (hnd : A.dupSlice = f
 `[0, 0]`, operand `[1, 1]ᵀ`): the code gives 1, the represented matrix `[1 1]` gives 2. -/
 theorem C01_clause_needed :
     let A : MatF Int := fun _ j => if j = 0 then 1 else 2
-    let act : MatF Int → MatF Int := fun Y => mmul 2 A Y
+    let act : MatF Int → MatV Int := fun Y => MatV.of (mmul 2 A Y)
     (slicedMatmat act [0] [0, 0] (fun _ _ => 1)).f 0 0 = 1 ∧
       mmul 2 (slicedDen A [0] [0, 0]) (fun _ _ => 1) 0 0 = 2 := by
   decide
